@@ -190,7 +190,7 @@ Proof.
   destruct (first_vchild _ _) as [c|]; [|apply IH].
   match goal with |- context [vaccept verr fin ?S c] =>
     pose proof (vaccept_ne fin S c) as H; destruct (vaccept verr fin S c) as [[s1 m] e] end.
-  simpl in H. destruct e; simpl; try discriminate; try apply IH. contradiction.
+  simpl in H. destruct e; simpl; try discriminate; try apply IH.
 Qed.
 
 (** the binding of [h] in the block table stays [x] as long as nothing else is
@@ -261,8 +261,8 @@ Proof.
   set (s0 := mkV (vidx s) (remove_vorph (ihash c) (vorph s)) (vmain s) (vstore s)).
   destruct (fixed_vaccept h x fin s0 c H (Ho c Hc)) as [A B].
   destruct (vaccept verr fin s0 c) as [[s1 m] e]. simpl in A, B.
-  destruct e; try exact A. apply IH; [exact A|].
-  intros c' Hc'. rewrite B in Hc'. simpl in Hc'. apply remove_vorph_in in Hc'. apply Ho; exact Hc'.
+  destruct e; try exact A; (apply IH; [exact A|]);
+  intros c' Hc'; rewrite B in Hc'; simpl in Hc'; apply remove_vorph_in in Hc'; apply Ho; exact Hc'.
 Qed.
 
 Lemma in_vidx_find : forall h ix, in_vidx h ix = true -> exists n, In n ix /\ vid n = h.
